@@ -289,6 +289,22 @@ func (x *Exec) specCall(c *SpecCtx, e *Expr) (*Val, error) {
 			return scalar(mk("to_real", SReal, as[0].T), nil), nil
 		}
 		return as[0], nil
+	case "pow":
+		as, err := evalArgs()
+		if err != nil {
+			return nil, err
+		}
+		x.usesReal = true
+		x.axiomsOn["pow"] = true
+		x.D.declareFun("uf.pow", []Sort{SReal, SReal}, SReal)
+		a, b := floatToReal(as[0]).T, floatToReal(as[1]).T
+		if a.S == SInt {
+			a = mk("to_real", SReal, a)
+		}
+		if b.S == SInt {
+			b = mk("to_real", SReal, b)
+		}
+		return scalar(mk("uf.pow", SReal, a, b), nil), nil
 	case "floor":
 		as, err := evalArgs()
 		if err != nil {
@@ -313,6 +329,53 @@ func (x *Exec) specCall(c *SpecCtx, e *Expr) (*Val, error) {
 			if err != nil {
 				return nil, err
 			}
+			cs = append(cs, valEqRaw(cur, old))
+		}
+		return boolVal(tAnd(cs...)), nil
+	case "same", "sameExcept":
+		// same(p): every field of *p equals its value in the old state; sameExcept(p, f1, f2, ...): all but the named fields
+		if len(e.Args) < 1 {
+			return nil, fmt.Errorf("%s(ptr, fields...)", name)
+		}
+		pv, err := x.specEval(c, e.Args[0])
+		if err != nil {
+			return nil, err
+		}
+		if pv.K != VScalar || pv.Typ == nil {
+			return nil, fmt.Errorf("%s: argument is not a pointer", name)
+		}
+		pt, ok := pv.Typ.Underlying().(*types.Pointer)
+		if !ok {
+			return nil, fmt.Errorf("%s: argument is not a pointer", name)
+		}
+		stt, ok := pt.Elem().Underlying().(*types.Struct)
+		if !ok {
+			return nil, fmt.Errorf("%s: not a pointer to struct", name)
+		}
+		skip := map[string]bool{}
+		for _, a := range e.Args[1:] {
+			if a.Kind != "ident" {
+				return nil, fmt.Errorf("%s: field names expected", name)
+			}
+			found := false
+			for i := 0; i < stt.NumFields(); i++ {
+				if stt.Field(i).Name() == a.Name {
+					found = true
+				}
+			}
+			if !found {
+				return nil, fmt.Errorf("%s: no field %s in %s", name, a.Name, pt.Elem())
+			}
+			skip[a.Name] = true
+		}
+		var cs []*Term
+		for i := 0; i < stt.NumFields(); i++ {
+			f := stt.Field(i)
+			if skip[f.Name()] {
+				continue
+			}
+			cur := x.loadObj(c.st, pv.T, pt.Elem(), f.Name(), f.Type())
+			old := x.loadObj(c.old, pv.T, pt.Elem(), f.Name(), f.Type())
 			cs = append(cs, valEqRaw(cur, old))
 		}
 		return boolVal(tAnd(cs...)), nil
